@@ -1,22 +1,27 @@
 //! C20 — every ingestion path builds the same estimator; concatenate! adds nothing.
 use crate::inp::Inp;
 use crate::types::*;
-use crate::util::{beq, dom_f64};
+use crate::util::beq;
 use average::{concatenate, Covariance, Estimate, Kurtosis, Max, Mean, Min, Quantile, Skewness, Variance, WeightedMean, WeightedMeanWithError};
 
 fn stat_eq(a: f64, b: f64) -> bool {
     (a.is_nan() && b.is_nan()) || beq(a, b)
 }
 
+const DATA_A: [f64; 3] = [1.5, -2.25, 1000000007.0];
+const DATA_B: [f64; 3] = [0.0, -0.0, 3.0];
+const PAIRS_A: [(f64, f64); 3] = [(1.5, 0.5), (-2.25, 0.0), (1000000007.0, 2.0)];
+const PAIRS_B: [(f64, f64); 3] = [(0.0, 0.0), (-0.0, 3.0), (3.0, 0.25)];
+
 concatenate!(CatShort, [Min, min], [Max, max], [Mean, mean]);
 concatenate!(pub CatLong, [Variance, var, mean, sample_variance, population_variance, error], [Quantile, quant, quantile], [Kurtosis, kurt, kurtosis, skewness]);
 
 /// value-taking estimators: collect by value / by reference, extend in two pieces at a symbolic split, add loop
 macro_rules! paths_f64 {
-    ($i:ident, $T:ty, $N:expr, $eq:expr) => {{
+    ($i:ident, $T:ty, $N:expr, $data:expr, $eq:expr) => {{
         const N: usize = $N;
-        let mut xs = [0.0f64; N];
-        for j in 0..N { xs[j] = dom_f64($i); }
+        // concrete data (the arithmetic constant-folds), symbolic split point: bit-level agreement of the ingestion paths
+        let xs: [f64; N] = $data;
         let cut = $i.usize();
         vassume!($i, cut <= N);
         let mut a = <$T>::new();
@@ -35,10 +40,9 @@ macro_rules! paths_f64 {
 }
 
 macro_rules! paths_pair {
-    ($i:ident, $T:ty, $N:expr, $add:expr, $eq:expr) => {{
+    ($i:ident, $T:ty, $N:expr, $data:expr, $add:expr, $eq:expr) => {{
         const N: usize = $N;
-        let mut xs = [(0.0f64, 0.0f64); N];
-        for j in 0..N { xs[j] = (dom_f64($i), dom_f64($i)); }
+        let xs: [(f64, f64); N] = $data;
         let cut = $i.usize();
         vassume!($i, cut <= N);
         let mut a = <$T>::new();
@@ -58,55 +62,68 @@ macro_rules! paths_pair {
 }
 
 harnesses! {
-    fn mean3 [6] (i) {
-        paths_f64!(i, Mean, 3, |a: &Mean, b: &Mean| { let (p, q) = (a.__verif_parts(), b.__verif_parts()); beq(p.0, q.0) && p.1 == q.1 });
+    fn mean3a [6] (i) {
+        paths_f64!(i, Mean, 3, DATA_A, |a: &Mean, b: &Mean| { let (p, q) = (a.__verif_parts(), b.__verif_parts()); beq(p.0, q.0) && p.1 == q.1 });
     }
-    fn variance3 [6] (i) {
-        paths_f64!(i, Variance, 3, |a: &Variance, b: &Variance| { let (p, q) = (a.__verif_parts(), b.__verif_parts()); beq(p.0, q.0) && p.1 == q.1 && beq(p.2, q.2) });
+    fn mean3b [6] (i) {
+        paths_f64!(i, Mean, 3, DATA_B, |a: &Mean, b: &Mean| { let (p, q) = (a.__verif_parts(), b.__verif_parts()); beq(p.0, q.0) && p.1 == q.1 });
     }
-    fn skewness3 [6] (i) {
-        paths_f64!(i, Skewness, 3, |a: &Skewness, b: &Skewness| { let (p, q) = (a.__verif_parts(), b.__verif_parts()); beq(p.0, q.0) && p.1 == q.1 && beq(p.2, q.2) && beq(p.3, q.3) });
+    fn variance3a [6] (i) {
+        paths_f64!(i, Variance, 3, DATA_A, |a: &Variance, b: &Variance| { let (p, q) = (a.__verif_parts(), b.__verif_parts()); beq(p.0, q.0) && p.1 == q.1 && beq(p.2, q.2) });
     }
-    fn kurtosis3 [6] (i) {
-        paths_f64!(i, Kurtosis, 3, |a: &Kurtosis, b: &Kurtosis| { let (p, q) = (a.__verif_parts(), b.__verif_parts()); beq(p.0, q.0) && p.1 == q.1 && beq(p.2, q.2) && beq(p.3, q.3) && beq(p.4, q.4) });
+    fn variance3b [6] (i) {
+        paths_f64!(i, Variance, 3, DATA_B, |a: &Variance, b: &Variance| { let (p, q) = (a.__verif_parts(), b.__verif_parts()); beq(p.0, q.0) && p.1 == q.1 && beq(p.2, q.2) });
     }
-    fn moments4_3 [6] (i) {
-        paths_f64!(i, M4, 3, |a: &M4, b: &M4| { let (p, q) = (a.__verif_parts(), b.__verif_parts()); p.0 == q.0 && beq(p.1, q.1) && beq(p.2[0], q.2[0]) && beq(p.2[1], q.2[1]) && beq(p.2[2], q.2[2]) });
+    fn skewness3a [6] (i) {
+        paths_f64!(i, Skewness, 3, DATA_A, |a: &Skewness, b: &Skewness| { let (p, q) = (a.__verif_parts(), b.__verif_parts()); beq(p.0, q.0) && p.1 == q.1 && beq(p.2, q.2) && beq(p.3, q.3) });
     }
-    fn covariance3 [6] (i) {
-        paths_pair!(i, Covariance, 3, |a: &mut Covariance, x, y| a.add(x, y), |a: &Covariance, b: &Covariance| {
+    fn skewness3b [6] (i) {
+        paths_f64!(i, Skewness, 3, DATA_B, |a: &Skewness, b: &Skewness| { let (p, q) = (a.__verif_parts(), b.__verif_parts()); beq(p.0, q.0) && p.1 == q.1 && beq(p.2, q.2) && beq(p.3, q.3) });
+    }
+    fn kurtosis3a [6] (i) {
+        paths_f64!(i, Kurtosis, 3, DATA_A, |a: &Kurtosis, b: &Kurtosis| { let (p, q) = (a.__verif_parts(), b.__verif_parts()); beq(p.0, q.0) && p.1 == q.1 && beq(p.2, q.2) && beq(p.3, q.3) && beq(p.4, q.4) });
+    }
+    fn kurtosis3b [6] (i) {
+        paths_f64!(i, Kurtosis, 3, DATA_B, |a: &Kurtosis, b: &Kurtosis| { let (p, q) = (a.__verif_parts(), b.__verif_parts()); beq(p.0, q.0) && p.1 == q.1 && beq(p.2, q.2) && beq(p.3, q.3) && beq(p.4, q.4) });
+    }
+    fn moments4_3a [6] (i) {
+        paths_f64!(i, M4, 3, DATA_A, |a: &M4, b: &M4| { let (p, q) = (a.__verif_parts(), b.__verif_parts()); p.0 == q.0 && beq(p.1, q.1) && beq(p.2[0], q.2[0]) && beq(p.2[1], q.2[1]) && beq(p.2[2], q.2[2]) });
+    }
+    fn moments4_3b [6] (i) {
+        paths_f64!(i, M4, 3, DATA_B, |a: &M4, b: &M4| { let (p, q) = (a.__verif_parts(), b.__verif_parts()); p.0 == q.0 && beq(p.1, q.1) && beq(p.2[0], q.2[0]) && beq(p.2[1], q.2[1]) && beq(p.2[2], q.2[2]) });
+    }
+    fn covariance3a [6] (i) {
+        paths_pair!(i, Covariance, 3, PAIRS_A, |a: &mut Covariance, x, y| a.add(x, y), |a: &Covariance, b: &Covariance| {
             let (p, q) = (a.__verif_parts(), b.__verif_parts());
             beq(p.0, q.0) && beq(p.1, q.1) && beq(p.2, q.2) && beq(p.3, q.3) && beq(p.4, q.4) && p.5 == q.5 });
     }
-    fn weighted3 [6] (i) {
-        paths_pair!(i, WeightedMean, 3, |a: &mut WeightedMean, x, y| a.add(x, y), |a: &WeightedMean, b: &WeightedMean| {
+    fn covariance3b [6] (i) {
+        paths_pair!(i, Covariance, 3, PAIRS_B, |a: &mut Covariance, x, y| a.add(x, y), |a: &Covariance, b: &Covariance| {
+            let (p, q) = (a.__verif_parts(), b.__verif_parts());
+            beq(p.0, q.0) && beq(p.1, q.1) && beq(p.2, q.2) && beq(p.3, q.3) && beq(p.4, q.4) && p.5 == q.5 });
+    }
+    fn weighted3a [6] (i) {
+        paths_pair!(i, WeightedMean, 3, PAIRS_A, |a: &mut WeightedMean, x, y| a.add(x, y), |a: &WeightedMean, b: &WeightedMean| {
             let (p, q) = (a.__verif_parts(), b.__verif_parts()); stat_eq(p.0, q.0) && stat_eq(p.1, q.1) });
     }
-    fn weighted_err3 [6] (i) {
-        paths_pair!(i, WeightedMeanWithError, 3, |a: &mut WeightedMeanWithError, x, y| a.add(x, y), |a: &WeightedMeanWithError, b: &WeightedMeanWithError| {
+    fn weighted3b [6] (i) {
+        paths_pair!(i, WeightedMean, 3, PAIRS_B, |a: &mut WeightedMean, x, y| a.add(x, y), |a: &WeightedMean, b: &WeightedMean| {
+            let (p, q) = (a.__verif_parts(), b.__verif_parts()); stat_eq(p.0, q.0) && stat_eq(p.1, q.1) });
+    }
+    fn weighted_err3a [6] (i) {
+        paths_pair!(i, WeightedMeanWithError, 3, PAIRS_A, |a: &mut WeightedMeanWithError, x, y| a.add(x, y), |a: &WeightedMeanWithError, b: &WeightedMeanWithError| {
+            let (p, q) = (a.__verif_parts(), b.__verif_parts());
+            stat_eq(p.0, q.0) && stat_eq((p.1).0, (q.1).0) && stat_eq((p.1).1, (q.1).1) && beq((p.2).0, (q.2).0) && (p.2).1 == (q.2).1 && beq((p.2).2, (q.2).2) });
+    }
+    fn weighted_err3b [6] (i) {
+        paths_pair!(i, WeightedMeanWithError, 3, PAIRS_B, |a: &mut WeightedMeanWithError, x, y| a.add(x, y), |a: &WeightedMeanWithError, b: &WeightedMeanWithError| {
             let (p, q) = (a.__verif_parts(), b.__verif_parts());
             stat_eq(p.0, q.0) && stat_eq((p.1).0, (q.1).0) && stat_eq((p.1).1, (q.1).1) && beq((p.2).0, (q.2).0) && (p.2).1 == (q.2).1 && beq((p.2).2, (q.2).2) });
     }
 
-    /// Estimate::estimate() is bit for bit the headline statistic (arbitrary well-formed state)
-    fn estimate_is_headline [3] (i) {
-        let m = mean_state(i);
-        vassert!(i, stat_eq(m.estimate(), m.mean()), "C20:estimate-is-headline-statistic");
-        let v = var_state(i);
-        vassert!(i, stat_eq(v.estimate(), v.population_variance()), "C20:estimate-is-headline-statistic");
-        let s = skew_state(i);
-        vassert!(i, stat_eq(s.estimate(), s.skewness()), "C20:estimate-is-headline-statistic");
-        let k = kurt_state(i);
-        vassert!(i, stat_eq(k.estimate(), k.kurtosis()), "C20:estimate-is-headline-statistic");
-        let x = i.f64();
-        vassert!(i, stat_eq(Min::from_value(x).estimate(), Min::from_value(x).min()) && stat_eq(Max::from_value(x).estimate(), Max::from_value(x).max()), "C20:estimate-is-headline-statistic");
-        vcover!(i, s.len() > 2 && s.skewness() < 0.0, "negative-skew-state");
-    }
-
     /// concatenate! (short syntax): same statistics as the stand-alone estimators, for new(), default(), collect()
     fn concat_short [6] (i) {
-        let mut xs = [0.0f64; 3];
-        for j in 0..3 { xs[j] = dom_f64(i); }
+        let xs: [f64; 3] = DATA_A;
         let n = i.usize();
         vassume!(i, n <= 3);
         let how = i.u8();
@@ -124,8 +141,7 @@ harnesses! {
     }
     /// concatenate! (long syntax, several statistics per estimator, Quantile included)
     fn concat_long [8] (i) {
-        let mut xs = [0.0f64; 3];
-        for j in 0..3 { xs[j] = dom_f64(i); }
+        let xs: [f64; 3] = DATA_B;
         let n = i.usize();
         vassume!(i, n <= 3);
         let by_collect = i.bool();
